@@ -504,6 +504,38 @@ def run_highest_is_first_source(rec, case):
         rec.check(np.isfinite(lnl), "C05:finite_positive:%s" % mode, "likelihood not finite", dict(inp, mode=mode), lnl, "finite")
 
 
+def run_history(rec, case):
+    """the distances of a SAMPLED cosmology depend on the current parameter vector only: one object evaluated at p1 and then at p2 (p2 differs
+    from p1 in ONE parameter) must give at p2 what a fresh object gives at p2 (sampled modes, with and without interpolation)"""
+    from hierarc.Likelihood.cosmo_likelihood import CosmoLikelihood
+    rng = rng_of(case[0], 100 * int(case[1]) + int(case[2]))
+    model = MODELS[int(case[2]) % len(MODELS)]
+    p1 = model_params(model, rng, False)
+    names = {"FLCDM": ["h0", "om"], "FwCDM": ["h0", "om", "w"], "w0waCDM": ["h0", "om", "w0", "wa"], "oLCDM": ["h0", "om", "ok"]}[model]
+    key = {"h0": "h0", "om": "om", "w": "w0", "w0": "w0", "wa": "wa", "ok": "ok"}
+    j = int(rng.integers(len(names)))
+    p2 = dict(p1); k = key[names[j]]
+    p2[k] = p1[k] + {"h0": 7.0, "om": 0.08, "w0": 0.15, "wa": 0.4, "ok": 0.06}[k] * (1 if rng.random() < 0.5 else -1)
+    if k == "om": p2[k] = min(max(p2[k], 0.06), 0.9)
+    zl, zs = float(rng.uniform(0.2, 0.8)), float(rng.uniform(1.2, 2.5))
+    lenses = [dict(z_lens=zl, z_source=zs, likelihood_type="DdtGaussian", ddt_mean=4000.0, ddt_sigma=300.0)]
+    vec = lambda p: [p[key[n]] for n in names]
+    inp = dict(case=[int(c) for c in case], model=model, p1=p1, p2=p2, changed=names[j], z=[zl, zs])
+    rec.case(dict(model=model, changed=names[j]), kind="history/" + model)
+    for interp in (True, False):
+        try:
+            mk = lambda: CosmoLikelihood(lenses, model, {}, dict(BOUNDS), interpolate_cosmo=interp, num_redshift_interp=60)
+            a = mk()
+            dist = lambda cl, p: fscalar(cl._likelihoodLensSample._lens_list[0].angular_diameter_distances(cl.cosmo_instance(cl.param.args2kwargs(vec(p))[0]))[0])
+            dist(a, p1); second = dist(a, p2); l2 = fscalar(a.likelihood(vec(p2)))
+            b = mk(); fresh = dist(b, p2); lf = fscalar(b.likelihood(vec(p2)))
+        except Exception as e:
+            rec.violation("C05:raises:history", "raised %r" % (e,), dict(inp, interpolate=interp), traceback.format_exc(limit=3), "distances"); continue
+        rec.check(second == fresh and l2 == lf, "C05:history_dependent",
+                  "the distances / likelihood at p2 depend on the point evaluated before (a sampled cosmology must be rebuilt from the current vector)",
+                  dict(inp, interpolate=interp), [second, l2], [fresh, lf])
+
+
 def main():
     a = parse_args(PROP)
     rec = Recorder(PROP, a.tier, a.seed, "hierArc distances (5 supply modes, 4 models) == quad-integrated Friedmann reference")
@@ -518,6 +550,8 @@ def main():
                 run_anchor(rec, gen_anchor(case))
             elif int(case[1]) == 4:
                 run_highest_is_first_source(rec, case)
+            elif int(case[1]) == 5:
+                run_history(rec, case)
             else:
                 run_case(rec, gen_case(case))
         except Exception:
@@ -550,6 +584,11 @@ def main():
             run_highest_is_first_source(rec, [a.seed, 4, i])
         except Exception:
             rec.error("highest_is_first_source %s: %s" % ([a.seed, 4, i], traceback.format_exc(limit=6)))
+    for i in range(12 if a.tier == "quick" else 80):
+        try:
+            run_history(rec, [a.seed, 5, i])
+        except Exception:
+            rec.error("history %s: %s" % ([a.seed, 5, i], traceback.format_exc(limit=6)))
     out = rec.write(a.out)
     print(json.dumps(dict(property=PROP, evaluations=out["evaluations"], violations=out["violation_counts"],
                           errors=len(out["errors"]), wall_s=out["wall_s"])))
